@@ -267,15 +267,15 @@ Section Cache.
     ce_name e = n_name n /\ ce_hash e = n_tid n /\ ce_status e = None /\
     map (nth_error (tids all)) (ce_deps e) = map Some (n_deps n).
 
-  Lemma load_from_ok : forall r p m, wf_dag (p ++ r) -> h2ok p m ->
+  Lemma load_from_ok : forall r p m, ordered_dag (p ++ r) -> h2ok p m ->
     exists rest, load_from r (length p) m = Some rest /\ Forall2 (fresh_ok (p ++ r)) r rest.
   Proof.
     induction r as [|n r IH]; intros p m W [H1 H2]; simpl.
     - exists []. split; [reflexivity | constructor].
-    - destruct (W p n r eq_refl) as [D _].
+    - pose proof (W p n r eq_refl) as D.
       destruct (map_opt_ok m (n_deps n)) as [ix [E F]]; [intros x Hx; apply H2; apply D; exact Hx|].
       rewrite E.
-      assert (W2 : wf_dag ((p ++ [n]) ++ r)) by (rewrite <- app_assoc; exact W).
+      assert (W2 : ordered_dag ((p ++ [n]) ++ r)) by (rewrite <- app_assoc; exact W).
       destruct (IH (p ++ [n]) ((n_tid n, length p) :: m) W2) as [rest [L G]].
       { split.
         - intros t j G. simpl in G. destruct (Pos.eqb (n_tid n) t) eqn:Et.
@@ -294,7 +294,7 @@ Section Cache.
       + rewrite <- app_assoc in G. exact G.
   Qed.
 
-  Lemma load_jugfile_ok : wf_dag d -> exists db, load_jugfile d = Some db /\ forall st, db_ok st db.
+  Lemma load_jugfile_ok : ordered_dag d -> exists db, load_jugfile d = Some db /\ forall st, db_ok st db.
   Proof.
     intros W. destruct (load_from_ok d [] [] W) as [db [L F]].
     - split; [intros t j G; discriminate | intros t []].
@@ -304,7 +304,7 @@ Section Cache.
 
   (* (c) along every history in which results only grow, every cached call prints exactly what the
      uncached command would print at that moment *)
-  Lemma cached_eq_uncached : wf_dag d -> forall h, monotone (fun _ => false) h ->
+  Lemma cached_eq_uncached : ordered_dag d -> forall h, monotone (fun _ => false) h ->
     cached_run d None h = map (fun sl => Some (status_events d (fst sl) (snd sl))) h.
   Proof.
     intros W h M. destruct h as [|[st lk] r]; [reflexivity|].
@@ -315,6 +315,46 @@ Section Cache.
     destruct M as [_ M2]. split; [auto | exact M2].
   Qed.
 End Cache.
+
+(* the cache can be built ONLY for jugfiles whose tasks are created in dependency order: a
+   dependency created after its consumer is the KeyError of load_jugfile (exit status 1) *)
+Lemma map_opt_some : forall {A B} (f : A -> option B) l ys, map_opt f l = Some ys ->
+  forall x, In x l -> exists y, f x = Some y.
+Proof.
+  intros A B f. induction l as [|a r IH]; intros ys H x Hx; [contradiction|]. simpl in H.
+  destruct (f a) as [y|] eqn:Fa; [|discriminate]. destruct (map_opt f r) as [ys'|] eqn:Fr; [|discriminate].
+  destruct Hx as [Hx|Hx]; [subst; eexists; exact Fa | eapply IH; eauto].
+Qed.
+
+Lemma load_from_some_ordered : forall r p m rest,
+  (forall t j, h2idx_get m t = Some j -> In t (tids p)) ->
+  load_from r (length p) m = Some rest ->
+  forall p2 n s, r = p2 ++ n :: s -> forall x, In x (n_deps n) -> In x (tids (p ++ p2)).
+Proof.
+  induction r as [|a r IH]; intros p m rest K L p2 n s E x Hx; [destruct p2; discriminate|].
+  simpl in L. destruct (map_opt (h2idx_get m) (n_deps a)) as [ix|] eqn:Mo; [|discriminate].
+  destruct (load_from r (S (length p)) ((n_tid a, length p) :: m)) as [rest'|] eqn:Lr; [|discriminate].
+  destruct p2 as [|a' p2'].
+  - simpl in E. inversion E; subst. rewrite app_nil_r.
+    destruct (map_opt_some _ _ _ Mo x Hx) as [j Gj]. eapply K; eauto.
+  - simpl in E. inversion E; subst.
+    replace (p ++ a' :: p2') with ((p ++ [a']) ++ p2') by (rewrite <- app_assoc; reflexivity).
+    apply (IH (p ++ [a']) ((n_tid a', length p) :: m) rest') with (n := n) (s := s); auto.
+    + intros t j G. simpl in G. rewrite tids_app. apply in_or_app.
+      destruct (Pos.eqb (n_tid a') t) eqn:Et.
+      * apply Pos.eqb_eq in Et. right. left. exact Et.
+      * left. eapply K; eauto.
+    + rewrite app_length. simpl. rewrite Nat.add_1_r. exact Lr.
+Qed.
+
+Lemma load_jugfile_iff_ordered : forall d, (exists db, load_jugfile d = Some db) <-> ordered_dag d.
+Proof.
+  intros d. split.
+  - intros [db L] p n s E x Hx.
+    apply (load_from_some_ordered d [] [] db) with (p2 := p) (n := n) (s := s); auto.
+    intros t j G. discriminate.
+  - intros O. destruct (load_jugfile_ok d O) as [db [L _]]. exists db. exact L.
+Qed.
 
 (* a cell of the table counts the tasks of that name which classify into that column *)
 Lemma count_events : forall d st lk nm c,
